@@ -4,6 +4,7 @@ package maprange
 import (
 	"fmt"
 	"io"
+	"regexp"
 	"sort"
 	"time"
 )
@@ -114,4 +115,55 @@ func BadC05R3_clock(w io.Writer) {
 
 func GoodC05R3_allowed() time.Time {
 	return time.Now()
+}
+
+var cache = map[string]int{}
+var counter int
+
+func BadC05R4_cache(k string, v int) int {
+	if c, ok := cache[k]; ok {
+		return c
+	}
+	cache[k] = v
+	return v
+}
+
+func BadC05R4_counter() int {
+	counter++
+	return counter
+}
+
+func GoodC05R4_local(k string) int {
+	m := map[string]int{}
+	m[k] = 1
+	return m[k]
+}
+
+var lazyRe *regexp.Regexp
+
+func GoodC05R4_lazyConst(s string) bool {
+	if lazyRe == nil {
+		lazyRe = regexp.MustCompile("^[a-z]+$")
+	}
+	return lazyRe.MatchString(s)
+}
+
+func GoodC05R1_minKey(m map[string]int) (string, int) {
+	first, found, val := "", false, 0
+	for k, v := range m {
+		if !found || k < first {
+			first, found, val = k, true, v
+		}
+	}
+	return first, val
+}
+
+func BadC05R1_minValue(m map[string]int) string {
+	best, found, bv := "", false, 0
+	for k, v := range m {
+		if !found || v < bv {
+			best, found, bv = k, true, v
+		}
+	}
+	return best
 }
